@@ -19,4 +19,6 @@ for d in sorted(os.listdir(base)):
     print("| %s | %s | %s | %s | %s |" % (d, m.get("change", ""), m.get("needs_to_manifest", ""), "caught" if r1.get("caught_by") else "missed",
                                       (", ".join(r2.get("caught_by", [])) + (" (" + b + ")" if b else "")) if r2.get("caught_by") else "**missed**"))
 print()
-print("%d seeds, all confirmed valid (suite passes, demo passes on /repo and fails with the patch); round 1: %d caught; now: %d caught." % (n, c1, c2))
+print("%d seeds, all confirmed valid (suite passes, demo passes on /repo and fails with the patch); first evaluation: %d caught; now: %d caught. "
+      "(Column 'round 1' = the first evaluation of that seed: wave 1 (-1, -2) with the checks as they were when the seeds arrived, "
+      "wave 2 (-3, -4) after the generator gaps named above had been closed.)" % (n, c1, c2))
